@@ -174,6 +174,10 @@ public:
             clear();
             alloc_.deallocate(data_, capacity_);
             data_ = nullptr;
+            // no buffer any more: forget its capacity and reset the cursors,
+            // such that a later allocate() or assignment starts clean
+            capacity_ = 0;
+            begin_ = end_ = 0;
         }
     }
 
